@@ -94,6 +94,15 @@ def _c01(prop, cfg, sdef, history):
 
 # ------------------------------------------------------------------ C02
 
+def _tol(exact, *xs):
+    """comparison slack for quantities reconstructed here by other arithmetic than the library's: 1e-9 s, or a few ulps of
+    the operands when the machine clock is weeks long (at 5e6 s one ulp is already 9e-10 s)"""
+    if exact:
+        return 0.0
+    import math
+    return max(TOL, 8 * max(math.ulp(abs(x)) for x in xs if x == x and abs(x) != float("inf")) if xs else TOL)
+
+
 def _c02(prop, cfg, sdef, history, exact):
     tol = 0.0 if exact else TOL
     stay = None       # dict(state, s, d, start_abs, last_exec_index, last_act, clean)
@@ -141,17 +150,17 @@ def _c02(prop, cfg, sdef, history, exact):
                     if c[1] != nxt or a["initial_call"] is not True:
                         _fail(prop, "wrong_successor", h, f"after {stay['state']} expired expected an initial call of {nxt}, got {c[1]} initial_call={a['initial_call']}")
                     entry = a["tm"] - a["state_tm"]
-                    if abs(entry - lim) > tol:
+                    if abs(entry - lim) > _tol(exact, a["tm"], a["state_tm"], lim):
                         _fail(prop, "successor_clock", h,
                               f"successor {c[1]} clock starts at {entry!r}, expected the predecessor's expiry {lim!r}")
                 else:
                     if c[1] != cfg["first"] or a["initial_call"] is not True:
                         _fail(prop, "wrong_successor", h, f"continuously engaged machine should start over at {cfg['first']}, got {c[1]}")
                     start2 = now2 - a["tm"]
-                    if abs(start2 - exp_abs) > tol:
+                    if abs(start2 - exp_abs) > _tol(exact, now2, a["tm"], stay["start_abs"], lim):
                         _fail(prop, "restart_clock", h,
                               f"machine restarted with tm={a['tm']!r} at clock {now2!r}: start {start2!r}, expected the final state's expiry instant {exp_abs!r}")
-                    if abs(a["state_tm"] - a["tm"]) > tol:
+                    if abs(a["state_tm"] - a["tm"]) > _tol(exact, a["tm"]):
                         _fail(prop, "restart_clock", h, f"first state after restart: state_tm={a['state_tm']!r} tm={a['tm']!r}")
         if stay is not None and clean and engaged and not calls:
             _fail(prop, "engaged_but_nothing_ran", h, "engage() was called, a timed state held the floor, yet no state function ran")
